@@ -15,7 +15,7 @@ def run(ctx):
     if ctx.tier != "quick":
         lemma_sets_e1.string_lemmas(ctx, ctx.tier)
     ls = []
-    ls += C03.p2_lemmas(ctx.tier, lengths=(list(range(2, 9)) if ctx.tier == "quick" else None), with_long=(ctx.tier != "quick"))
+    ls += C03.p2_lemmas(ctx.tier, lengths=(list(range(2, 9)) if ctx.tier == "quick" else None), with_long=True)
     ls += lemmas_stage2.p3_lemmas(ctx.tier, ndjson=(0,))
     ls += lemmas_stage2.p3_skeleton_lemmas(ctx.tier, ndjson=(0,))
     ls += lemmas_stage2.u1_lemmas(ctx.tier, ndjson=(0,), havoc=(0,))
